@@ -232,7 +232,7 @@ class HeaderElement(with_metaclass(HeaderType)):
 			# FIXME: must not parse encoded_words in unquoted ('Content-Type', 'Content-Disposition') header params
 			try:
 				return u''.join(atom.decode(cls._sanitize_encoding(charset or 'ISO8859-1')) if isinstance(atom, bytes) else atom for atom, charset in decode_header(value.decode('ISO8859-1'))), 'UTF-8'
-			except (UnicodeDecodeError, HeaderParseError) as exc:
+			except (UnicodeDecodeError, HeaderParseError, LookupError) as exc:  # LookupError: e.g. 'uu' is not a text encoding
 				raise InvalidHeader(str(exc))
 		try:
 			return value.decode('ASCII'), 'ASCII'
